@@ -1150,6 +1150,19 @@ def bounded(payload):
                 {"id": "s0", "k": "assign", "lhs": "z", "sub": None, "rhs": ["call", "f", [V("x")], dict(kws)], "cond": None, "loops": []},
                 {"id": "s1", "k": "call", "lhs": ["w"], "fn": "g", "args": [V("z")], "kw": dict(kws), "cond": ["<", V("y"), ["c", 2]]}]})
             parts["multi_keyword_call_programs"] += 1
+    # 0c. a variable spelled like the function its own right-hand side calls (functions and variables are two name spaces:
+    #     the statement does not read the variable, and no pass may touch the function symbol)
+    for fn in ("f", "g"):
+        for mode in ("flat", "ast"):
+            for cond in (None, ["<", V("y"), ["c", 2]]):
+                for rhs in (["+", ["c", 1], ["call", fn, [V("x")], {}]],
+                            ["call", fn, [["+", V("x"), ["c", 1]]], {"k": V("y")}],
+                            ["*", ["call", fn, [["call", fn, [V("y")], {}]], {}], V("x")]):
+                    consider({"mode": mode, "valseed": 11, "nvals": 4, "stmts": [
+                        {"id": "s0", "k": "assign", "lhs": "<func>" + fn, "sub": None, "rhs": rhs, "cond": cond, "loops": []},
+                        {"id": "s1", "k": "assign", "lhs": "w", "sub": None, "rhs": ["+", V("<func>" + fn), V("x")],
+                         "cond": None, "loops": []}]})
+                    parts["variable_named_like_the_called_function_programs"] += 1
     # 1. exhaustive family: expression shapes up to `depth` x statement forms x colliding leaf names
     tpls = shapes(depth)
     parts["shape_templates"] = len(tpls)
